@@ -512,7 +512,9 @@ func addTree(
 		c := &Content{
 			FileInfo: &ContentFileInfo{},
 		}
-		if tree.FileInfo != nil && !ownedByFilesystem(tree.Destination) {
+		// the owner declared for the tree applies to every entry it creates, except
+		// to a directory that belongs to the distribution's filesystem layout
+		if tree.FileInfo != nil && !ownedByFilesystem(destination) {
 			c.FileInfo.Owner = tree.FileInfo.Owner
 			c.FileInfo.Group = tree.FileInfo.Group
 		}
